@@ -78,11 +78,11 @@ def execute(mod, spec, ws):
         if fresh:
             w = sim.Worker(ws.bins[variant], 'fresh')
             try:
-                results[tag] = w.run(plan, timeout=wall + 30)
+                results[tag] = w.run(plan, timeout=wall * 13 + 30)
             finally:
                 w.stop()
         else:
-            results[tag] = ws.run(variant, plan, timeout=wall + 30)
+            results[tag] = ws.run(variant, plan, timeout=wall * 13 + 30)
         if results[tag].crash_class() == 'TIMEOUT' and getattr(mod, 'STOP_JOB_AFTER_TIMEOUT', False):
             break      # one watchdog expiry per job is enough evidence; the rest of its placements would cost 20 s each
     s2 = dict(spec); s2['_ix'] = ix0; s2['_plans'] = pl
